@@ -777,6 +777,28 @@ void gen_c16(Plan& p, bool thorough) {
     env_faults(c, ro, 30);
     p.tasks[0].push_back(c);
   }
+  // keys are interchangeable between the surfaces up to the parameter byte: derivation and validation through the
+  // per-parameter surface against the model, export through one surface / import through the other
+  {
+    Case l;
+    l.set("op", "lowmc").set("param", prim).set("surf", 1).set("node", pick_node(r));
+    describe_key(l, r, *model::params(prim));
+    p.tasks[0].push_back(l);
+    for (int which = 0; which < 2; which++) {
+      Case e = km;
+      e.set("op", "export").set("which", which ? "sk" : "pk").set("surf", 1).set("cap", "size");
+      p.tasks[0].push_back(e);
+      Case i;
+      i.set("op", "import").set("pb", prim).set("param", prim).set("which", which ? "sk" : "pk").set("surf", 1).set("n", 100).setu("kseed", r.next() >> 20).set("chk", "c11").set("kpat", "rand");
+      p.tasks[0].push_back(i);
+    }
+    int other = (int)(1 + r.below(12));
+    if (other != prim) { // a key of another parameter set must not pass the per-parameter importer
+      Case i;
+      i.set("op", "import").set("pb", other).set("param", prim).set("which", r.chance(1, 2) ? "sk" : "pk").set("surf", 1).set("n", 100).setu("kseed", r.next() >> 20).set("chk", "c11").set("kpat", "rand");
+      p.tasks[0].push_back(i);
+    }
+  }
   // a message signed through one surface verifies through the other (sign checks both verifiers)
   Case x = km;
   x.set("op", "sign").set("surf", (int64_t)(p.run / 12 % 2)).set("node", pick_node(r)).set("chk", "c01,c03").set("kmode", "model");
@@ -861,6 +883,12 @@ void gen_c17(Plan& p, bool thorough) {
     Case g;
     g.set("op", "keygen").set("param", param).set("surf", (int64_t)r.below(3)).set("rs", "rand").setu("rseed", r.next() >> 20).set("chk", "c07").set("f.rng_err", "EAGAIN").set("f.rng_req", (int64_t)r.below(2));
     p.tasks[0].push_back(g);
+  }
+  if (8 * pp.ios - pp.n > 0) { // padding validation is compiled under instance switches as well
+    Case i;
+    i.set("op", "import").set("pb", param).set("param", param).set("which", r.chance(1, 2) ? "sk" : "pk").set("surf", (int64_t)r.below(2)).set("n", 100).setu("kseed", r.next() >> 20);
+    i.set("chk", "c11").set("kpat", "rand").set("padf", (int64_t)(1 + r.below(3))).set("padv", (int64_t)(1 + r.below(127)));
+    p.tasks[0].push_back(i);
   }
   Case n1 = km;
   n1.set("op", "nist").set("sub", "sign");
